@@ -5,8 +5,8 @@ LEVEL = "proof"
 
 
 def run(ctx, out):
-    dcheck.run_property(ctx, out, "C03", "mon_c03", n_quick=300, n_thorough=5000,
+    dcheck.run_property(ctx, out, "C03", "mon_c03_all", n_quick=300, n_thorough=5000,
                         gen_kw=dict(ws_share=0.35, batches=0.08, malformed=0.03),
                         directed=directed.regressions() + directed.batch_orders() + directed.long_ids() + directed.reply_forms() + directed.faulty_caller() + directed.faulty_caller_batched() + directed.orphan_routes() + directed.escaped_ids() + directed.abandoned_requests())
-    dcheck.run_more(ctx, out, "C03", "mon_c03", n_quick=120, n_thorough=1500,
+    dcheck.run_more(ctx, out, "C03", "mon_c03_all", n_quick=120, n_thorough=1500,
                     gen_kw=dict(variant="small", ws_share=0.2, single=True), tag="small")
